@@ -114,9 +114,10 @@ def validate(ctx, records, chunk=1500, parallel=4, name="Trace_Call", module="Tr
     bad = {}
     for i, r in enumerate(results):
         ctx.add_tlc("%s[%d]" % (name, i), r, count_states=False)
-        checked = core.tla_tuples(r.out, "CHECKED")
+        out = re.sub(r"\s+>>", ">>", re.sub(r"<<\s+", "<<", r.out))      # long tuples are pretty-printed over lines
+        checked = core.tla_tuples(out, "CHECKED")
         if not checked or int(checked[0][0]) != len(chunks[i]):
             raise core.MachineryError("%s did not check every record:\n%s" % (module, r.out[-3000:]))
-        for tup in core.tla_tuples(r.out, "VERDICT"):
+        for tup in core.tla_tuples(out, "VERDICT"):
             bad.setdefault(int(tup[0]), []).append((core.unq(tup[1]), core.unq(tup[2]), tup[3] if len(tup) > 3 else ""))
     return bad
